@@ -1,4 +1,6 @@
-(* C17 - lemmas and proofs: the clumping loop. (Exact-LD algebra: C17_ProofsExact.v) *)
+(* C17 - lemmas and proofs: the clumping loop for an arbitrary window predicate, its composition
+   with loading and the Pearson test (clumpstr_greedy), the checker's soundness.
+   (Exact-LD algebra: C17_ProofsExact.v) *)
 From HV Require Import Prelude PearsonQ C17_Model C17_Check.
 From Coq Require Import QArith.
 Open Scope Z_scope.
